@@ -12,7 +12,7 @@ import re
 
 from sim import env  # noqa: F401
 from sim.canon import dumps
-from sim.gen_expr import gen_ahb_parts, gen_invalid, gen_valid, key_universe, keys_of, render, render_ahb
+from sim.gen_expr import gen_ahb_parts, gen_invalid, gen_valid, key_universe, keys_of, render, render_ahb, shape
 from sim.prf import PROFILES, rng
 from sim.props.common import (
     LIVENESS_ERRORS,
@@ -403,7 +403,8 @@ def generate(seed, tier="quick"):
             victim["fault"] = {"kind": "raise", "peer": peer, "key": rnd.choice(pool)}
         else:
             victim["fault"] = {"kind": "cancel", "at": rnd.choice([0, 1, 2, 3, 10, 500])}
-    return {"property": PROP_ID, "seed": seed, "profile": profile, "world": world, "requests": requests}
+    return {"property": PROP_ID, "seed": seed, "profile": profile, "world": world, "requests": requests,
+            "time_unit": 0.001}
 
 
 def summarise(scenario):
@@ -448,6 +449,19 @@ def _model_value(ast, cer):
     if left == "N" or right == "N":
         raise _NoModel
     return (left or right) if kind == "or" else (left != right)
+
+
+def _fc_model_value(ast, cer):
+    kind = ast[0]
+    if kind == "k":
+        entry = cer["format_constraints"].get(ast[1])
+        if entry is None:
+            raise _NoModel
+        return bool(entry["format_constraint_fulfilled"])
+    if kind not in ("and", "or", "xor"):
+        raise _NoModel
+    left, right = _fc_model_value(ast[1], cer), _fc_model_value(ast[2], cer)
+    return (left and right) if kind == "and" else (left or right) if kind == "or" else (left != right)
 
 
 def _direct_clause(request, outcome, world):
@@ -510,6 +524,18 @@ def _direct_clause(request, outcome, world):
                 if indicator != str(parts[chosen][0]).upper():
                     return (f"{op['expr']!r} with {cer['requirement_constraints']}: indicator {indicator}, the keys' "
                             f"own values select part {chosen} ({parts[chosen][0]}; parts: {values})")
+    if op["op"] == "fc_eval" and op.get("ast") and world.get("fc_mode", "cer") == "cer":
+        # the same for format constraints: every key's own verdict (as the content evaluation result gives it), two-
+        # valued logic over the generated tree
+        try:
+            value = _fc_model_value(to_tuple(op["ast"]), cer)
+        except _NoModel:
+            value = None
+        got = result.get("format_constraints_fulfilled") if isinstance(result, dict) else "?"
+        if value is not None and got is not value:
+            verdicts = {k: v["format_constraint_fulfilled"] for k, v in cer["format_constraints"].items()}
+            return (f"{op['expr']!r} with {verdicts}: format_constraints_fulfilled is {got!r}, the keys' own verdicts "
+                    f"give {value!r}")
     if op["op"] == "gather_mixed":
         expected = [f"{'A' if item[0] == 'a' else 'V'}{item[1]}@{rid.split('+')[0]}" for item in op["items"]]
         if result != expected:
@@ -595,6 +621,26 @@ def _with_op(scenario, index, op):
 
 
 def shrink(scenario):
+    """candidates stay scenarios generate() could have made: valid expressions stay valid"""
+
+    def trees(candidate):
+        for request in candidate["requests"]:
+            op = request["op"]
+            if op["op"] == "valid":
+                continue  # (validity checks are asked about invalid expressions as well)
+            if op.get("ast"):
+                yield request["rid"], to_tuple(op["ast"])
+            for number, (_, ast) in enumerate(op.get("parts") or []):
+                if ast is not None:
+                    yield f"{request['rid']}/{number}", to_tuple(ast)
+
+    before = {name: shape(ast) for name, ast in trees(scenario)}
+    for candidate in _shrink(scenario):
+        if all(shape(ast) is not None or before.get(name, "?") is None for name, ast in trees(candidate)):
+            yield candidate
+
+
+def _shrink(scenario):
     requests = scenario["requests"]
     if len(requests) > 1:
         for index in range(len(requests)):
